@@ -8,7 +8,7 @@ CONSTANTS
   KeyOrders = "two"
   G2Scopes <- Chain123
   G2Rev = {FALSE}
-  RN = 6000
+  RN = 4000
 INIT RandInit
 NEXT RandNext
 INVARIANT RandEmit
